@@ -21,10 +21,92 @@ pub(crate) mod verif_keyring {
         ok
     }
 
+    // ---------------------------------------------------------------- E-STR
+    // Byte-level models of the std string helpers the parser is built from, exact for ASCII text (the harness texts are
+    // ASCII; a non-ASCII byte sets STR_LIMIT => the run is inconclusive, never a verdict). std's own implementations walk
+    // `char` iterators with UTF-8 decoding, Unicode White_Space tables and the two-way/memchr searchers, which cost ~15
+    // minutes of symbolic execution per input line; these are what the standard library documents them to compute.
+    pub static mut STR_LIMIT: bool = false;
+    pub fn str_ws(b: u8) -> bool { b == b' ' || (b >= 9 && b <= 13) }
+    fn ascii_only(b: &[u8]) { let mut i = 0; while i < b.len() { if b[i] >= 0x80 { unsafe { STR_LIMIT = true; } } i += 1; } }
+    /// str::trim: strip leading and trailing White_Space (ASCII: 0x09..=0x0D, 0x20)
+    pub fn trim_model(s: &str) -> &str {
+        let b = s.as_bytes();
+        ascii_only(b);
+        let mut i = 0;
+        let mut j = b.len();
+        while i < j && str_ws(b[i]) { i += 1; }
+        while j > i && str_ws(b[j - 1]) { j -= 1; }
+        unsafe { core::str::from_utf8_unchecked(&b[i..j]) }
+    }
+    /// String::retain: keep exactly the chars for which f is true, in order
+    pub fn retain_model<F: FnMut(char) -> bool>(s: &mut String, mut f: F) {
+        let v = unsafe { s.as_mut_vec() };
+        let mut w = 0;
+        let mut r = 0;
+        while r < v.len() {
+            if v[r] >= 0x80 { unsafe { STR_LIMIT = true; } }
+            if f(v[r] as char) { v[w] = v[r]; w += 1; }
+            r += 1;
+        }
+        v.truncate(w);
+    }
+    /// str::lines / Lines::next: lines end at "\n" or "\r\n" (the terminator is not part of the line); a final line
+    /// needs no terminator; an empty final line is not reported. The iterator object is std's opaque `Lines`; since both
+    /// its constructor and its `next` are replaced, its bytes hold this model's own cursor.
+    /// (The cursor lives in a static, not inside the `Lines` object: type-punned stores into the opaque iterator defeat the
+    /// model checker's constant propagation. The parser has one `Lines` alive at a time; a second `lines()` call while one
+    /// is in use would be flagged through LINES_LIVE.)
+    pub struct LinesState { ptr: *const u8, len: usize, pos: usize }
+    pub static mut LINES: LinesState = LinesState { ptr: core::ptr::null(), len: 0, pos: 0 };
+    pub static mut LINES_LIVE: bool = false;
+    /// The real (cheap) constructor `str::lines` is kept; only `next` is replaced. The text is obtained from the untouched
+    /// real iterator through `Lines::remainder()` (which, as the real iterator is never advanced, is always the whole text);
+    /// the cursor is this model's own.
+    pub fn lines_next_model<'a>(l: &mut core::str::Lines<'a>) -> Option<&'a str> where 'a: 'a {  // ('a: 'a makes the lifetime early-bound, like the impl-level lifetime of the original)
+        let whole: &'a str = match l.remainder() { Some(w) => w, None => "" };
+        let b: &'a [u8] = whole.as_bytes();
+        let st = unsafe { &mut LINES };
+        if !unsafe { LINES_LIVE } || st.ptr != b.as_ptr() || st.len != b.len() {
+            // first call on this iterator
+            unsafe { LINES_LIVE = true; }
+            st.ptr = b.as_ptr(); st.len = b.len(); st.pos = 0;
+        }
+        if st.pos >= st.len { unsafe { LINES_LIVE = false; } return None; }
+        let start = st.pos;
+        let mut k = start;
+        while k < b.len() && b[k] != b'\n' { k += 1; }
+        let mut end = k;
+        if k < b.len() { st.pos = k + 1; if end > start && b[end - 1] == b'\r' { end -= 1; } } else { st.pos = b.len(); }
+        Some(unsafe { core::str::from_utf8_unchecked(&b[start..end]) })
+    }
+    /// str::split_once(char): split at the first occurrence of an ASCII delimiter (the parser only ever passes '=')
+    pub fn split_once_model<'a, P: core::str::pattern::Pattern>(s: &'a str, delimiter: P) -> Option<(&'a str, &'a str)> {
+        if core::mem::size_of::<P>() != 4 { unsafe { STR_LIMIT = true; } return None; }
+        let c: u32 = unsafe { core::mem::transmute_copy(&delimiter) };
+        core::mem::forget(delimiter);
+        if c >= 0x80 { unsafe { STR_LIMIT = true; } return None; }
+        let b = s.as_bytes();
+        let mut k = 0;
+        while k < b.len() && b[k] != c as u8 { k += 1; }
+        if k == b.len() { return None; }
+        Some(unsafe { (core::str::from_utf8_unchecked(&b[..k]), core::str::from_utf8_unchecked(&b[k + 1..])) })
+    }
+    macro_rules! str_stubs { ($f:item) => {
+        #[kani::proof]
+        #[kani::stub(core::fmt::write, fmtwrite_cut)]
+        #[kani::stub(alloc::fmt::format, format_cut)]
+        #[kani::stub(str::trim, trim_model)]
+        #[kani::stub(std::string::String::retain, retain_model)]
+        #[kani::stub(<core::str::Lines as core::iter::Iterator>::next, lines_next_model)]
+        #[kani::stub(str::split_once, split_once_model)]
+        $f
+    } }
+
     // ---------------------------------------------------------------- E-B64
     // Base64 is replaced as a crate (harness/env/ct-codecs-kani): under cfg(kani) encode/decode are a
     // record/replay bijection between byte strings and opaque tokens; its tables are public statics.
-    pub use ct_codecs::kani_model::{ATT_BYTES, ATT_ERR, ATT_LEN, B64_BYTES, B64_LEN, B64_N};
+    pub use ct_codecs::kani_model::M as B64;  // (one static with a unique initialiser: see the note in kani_model.rs)
 
     // ---------------------------------------------------------------- E-KDF (injective, deterministic)
     pub static mut KDF_PW: [[u8; 4]; 3] = [[0; 4]; 3];
@@ -112,10 +194,10 @@ pub(crate) mod verif_keyring {
             assert!(eq(&KDF_SALT[0], &salt, 32), "[C15] scrypt gets the salt");
             assert!(AE.0 == 1 && AE.1 == KDF_OUT[0] && AE.2 == [0u8; 12] && AE.4 == 32 && AE.3 == skb && AE.6 == 4 && AE.5 == [0x65, 0x67, 0x6b, 0x30],
                     "[C15] sealed = ChaCha20-Poly1305(key = scrypt output, nonce = 0^12, plaintext = the 32-byte private key, aad = 65 67 6B 30)");
-            assert!(B64_N == 1 && B64_LEN[0] == 84, "[C15] the locked key is the base64 of 84 bytes");
-            assert!(B64_BYTES[0][0] == 0x65 && B64_BYTES[0][1] == 0x67 && B64_BYTES[0][2] == 0x6b && B64_BYTES[0][3] == 0x30, "[C15] blob starts with the version 65 67 6B 30");
-            assert!(eq(&B64_BYTES[0][4..], &salt, 32), "[C15] then the 32-byte salt");
-            assert!(eq(&B64_BYTES[0][36..], &AE.7, 48), "[C15] then ciphertext and tag (48 bytes)");
+            assert!(B64.b64_n == 1 && B64.b64_len[0] == 84, "[C15] the locked key is the base64 of 84 bytes");
+            assert!(B64.b64_bytes[0][0] == 0x65 && B64.b64_bytes[0][1] == 0x67 && B64.b64_bytes[0][2] == 0x6b && B64.b64_bytes[0][3] == 0x30, "[C15] blob starts with the version 65 67 6B 30");
+            assert!(eq(&B64.b64_bytes[0][4..], &salt, 32), "[C15] then the 32-byte salt");
+            assert!(eq(&B64.b64_bytes[0][36..], &AE.7, 48), "[C15] then ciphertext and tag (48 bytes)");
         }
         // parses back through the public constructor
         let reparsed = EncodedSk::try_from(locked.as_str());
@@ -181,14 +263,14 @@ pub(crate) mod verif_keyring {
         kani::assume(k < 84 && d != 0);
         let other_len: bool = kani::any();
         unsafe {
-            ATT_BYTES[..84].copy_from_slice(&B64_BYTES[0]);
+            B64.att_bytes[..84].copy_from_slice(&B64.b64_bytes[0]);
             if other_len {
                 let n: usize = kani::any();
                 kani::assume(n <= 90 && n != 84);
-                ATT_LEN = n;
+                B64.att_len = n;
             } else {
-                ATT_BYTES[k] ^= d;
-                ATT_LEN = 84;
+                B64.att_bytes[k] ^= d;
+                B64.att_len = 84;
             }
         }
         let s = "XXXXXXXXXXXXXXXXXXXXXXXXXXXXXXXXXXXXXXXXXXXXXXXXXXXXXXXXXXXXXXXXXXXXXXXXXXXXXXXXXXXXXXXXXXXXXXXXXXXXXXXXXXXXXXXXXXXXXXXXXXXX";
@@ -205,7 +287,7 @@ pub(crate) mod verif_keyring {
         kani::cover!(!other_len && k == 3 && d == 1);
         kani::cover!(!other_len && k == 4);
         kani::cover!(!other_len && k == 83);
-        kani::cover!(other_len && unsafe { ATT_LEN } == 0);
+        kani::cover!(other_len && unsafe { B64.att_len } == 0);
         core::mem::forget(sk);
     }
 
@@ -241,8 +323,8 @@ pub(crate) mod verif_keyring {
             let pk = PublicKey::try_from(&pkb[..]).unwrap();
             let enc = Keyring::encode_public_key(&pk);
             unsafe {
-                assert!(B64_N == 1 && B64_LEN[0] == 36 && eq(&B64_BYTES[0], &pkb, 32), "[C17,C16] encoded public key = base64(32 key bytes || checksum)");
-                assert!(SHA_IN == pkb && eq(&B64_BYTES[0][32..], &SHA_OUT, 4), "[C17] checksum = first 4 bytes of SHA-256(key)");
+                assert!(B64.b64_n == 1 && B64.b64_len[0] == 36 && eq(&B64.b64_bytes[0], &pkb, 32), "[C17,C16] encoded public key = base64(32 key bytes || checksum)");
+                assert!(SHA_IN == pkb && eq(&B64.b64_bytes[0][32..], &SHA_OUT, 4), "[C17] checksum = first 4 bytes of SHA-256(key)");
             }
             assert!(EncodedPk::try_from(enc.as_str()).is_ok(), "[C17] what the tool writes is accepted by the parser's check");
             let dec = Keyring::decode_public_key(&enc);
@@ -250,7 +332,7 @@ pub(crate) mod verif_keyring {
         } else if which == 1 {
             // an arbitrary 36-byte blob
             let blob: [u8; 36] = kani::any();
-            unsafe { ATT_BYTES[..36].copy_from_slice(&blob); ATT_LEN = 36; }
+            unsafe { B64.att_bytes[..36].copy_from_slice(&blob); B64.att_len = 36; }
             let e = EncodedPk::try_from("XXXXXXXXXXXXXXXXXXXXXXXXXXXXXXXXXXXXXXXXXXXXXXXX");
             assert!(e.is_ok(), "[C17] 36 decoded bytes pass the length check");
             let dec = Keyring::decode_public_key(e.as_ref().unwrap());
@@ -263,7 +345,7 @@ pub(crate) mod verif_keyring {
             // any other decoded length, or undecodable
             let n: usize = kani::any();
             kani::assume(n <= 40 && n != 36);
-            unsafe { ATT_LEN = n; ATT_ERR = kani::any(); }
+            unsafe { B64.att_len = n; B64.att_err = kani::any(); }
             let e = EncodedPk::try_from("XXXXXXXXXXXXXXXXXXXXXXXXXXXXXXXXXXXXXXXXXXXXXXXX");
             assert!(e.is_err(), "[C17,C09] a string that does not decode to exactly 36 bytes is not a public key");
         }
@@ -330,78 +412,149 @@ pub(crate) mod verif_keyring {
         t
     }
     fn is_ws(b: u8) -> bool { b == b' ' || (b >= 9 && b <= 13) }
-    fn name_roundtrip(with_tab: bool, maxn: usize) {
-        unsafe { ct_codecs::kani_model::ATT_LEN = 36; }
-        let mut name: [u8; 3] = kani::any();
-        let n: usize = if with_tab { 3 } else { kani::any() };
-        kani::assume(n >= 1 && n <= maxn);
-        if with_tab { name[1] = b'\t'; kani::assume(name[0] == b'a' && name[2] == b'b'); }
-        // names `key generate` accepts: one line of input, trimmed, non-empty (ASCII here)
-        let mut has_tab = false;
+    /// Text on the stack with a concrete layout and (possibly) solver-chosen content: a `String` grown by `push`/`push_str`
+    /// of symbolic chars or symbolic-length pieces has a symbolic length, which the back end handles badly.
+    /// (CBMC propagates constants through arrays of at most 64 elements - its field-sensitivity limit; in a larger buffer
+    /// even the literal bytes become symbolic and the whole parse with them. Texts up to 64 bytes use Txt<64>; the token
+    /// files use Txt<112> together with `--max-field-sensitivity-array-size 128`.)
+    pub struct Txt<const N: usize> { pub b: [u8; N], pub n: usize }
+    impl<const N: usize> Txt<N> {
+        pub fn new() -> Self { Txt { b: [b' '; N], n: 0 } }
+        pub fn lit(&mut self, s: &[u8]) { let mut i = 0; while i < s.len() { self.b[self.n] = s[i]; self.n += 1; i += 1; } }
+        pub fn byte(&mut self, c: u8) { self.b[self.n] = c; self.n += 1; }
+        pub fn as_str(&self) -> &str { unsafe { core::str::from_utf8_unchecked(&self.b[..self.n]) } }
+    }
+    /// One accepted name of exactly `n` ASCII bytes (concrete n, solver-chosen bytes) through write-then-parse.
+    fn name_roundtrip(n: usize) {
+        unsafe { ct_codecs::kani_model::M.att_len = 36; }
+        let name: [u8; 3] = kani::any();
+        // names `key generate` accepts: one line of input, trimmed, non-empty (ASCII here); TAB is known finding F4
         let mut j = 0;
         while j < 3 {
-            if j < n {
-                kani::assume(name[j] != 0 && name[j] < 0x80 && name[j] != b'\n');
-                if name[j] == b'\t' { has_tab = true; }
-            }
+            if j < n { kani::assume(name[j] != 0 && name[j] < 0x80 && name[j] != b'\n' && name[j] != b'\r' && name[j] != b'\t'); }
             j += 1;
         }
         kani::assume(!is_ws(name[0]) && !is_ws(name[n - 1]));
-        kani::assume(has_tab == with_tab);
-        let text = name_text(&name, n);
-        let kr = Keyring::new(&text);
-        if with_tab {
-            assert!(kr.is_ok() && kr.as_ref().unwrap().keys.len() == 1 && kr.as_ref().unwrap().keys[0].name.as_bytes() == &name[..n],
-                    "[C17] KF-F4 a key name containing a TAB, as written by key generation, parses back to itself");
-        } else {
+        // the text serialize_key() writes for one key without a private key line
+        let mut t = Txt::<64>::new();
+        t.lit(b"[Key]\nName = ");
+        t.lit(&name[..n]);
+        t.lit(b"\nPublicKey = P\n");
+        let kr = Keyring::new(t.as_str());
+        assert!(kr.is_ok(), "[C17,C14] a [Key] section as written by key generation is accepted");
+        let kr = kr.unwrap();
+        assert!(kr.keys.len() == 1, "[C17] one section gives one entry");
+        assert!(kr.keys[0].name.as_bytes() == &name[..n], "[C17,C14] the name parses back to exactly the name that was written");
+        assert!(kr.keys[0].public_key.as_str() == PK_A && kr.keys[0].private_key.is_none(), "[C17] the public key parses back to exactly what was written");
+        assert!(kr.get_key(unsafe { core::str::from_utf8_unchecked(&name[..n]) }).is_some(), "[C17,C12] the key is found under the name that was written");
+        core::mem::forget(kr);
+    }
+    str_stubs! {
+    /// C17(2): names accepted by key generation (no TAB) round-trip through the parser: every ASCII name of 1..3 bytes that
+    /// key generation accepts (trimmed, non-empty, one line; '=' '#' '[' and inner spaces included).
+    #[kani::unwind(16)]
+    pub fn c17_name_roundtrip() {
+        name_roundtrip(1);
+        name_roundtrip(2);
+        name_roundtrip(3);
+        assert!(!unsafe { STR_LIMIT }, "[LIMIT] E-STR models are exact for ASCII text only");
+    } }
+    str_stubs! {
+    /// C17(2), concrete-input variant for the quick tier (the parser's control flow depends on every byte, so solver-chosen
+    /// names make every slice length symbolic - see DESIGN 7.9): twelve names key generation accepts, written in the format
+    /// serialize_key() writes, parse back to themselves and are found by get_key.
+    #[kani::unwind(24)]
+    pub fn c17_names_concrete() {
+        unsafe { ct_codecs::kani_model::M.att_len = 36; }
+        let names: [&str; 12] = ["a", "ab", "a b", "a=b", "a = b", "=", "#a", "[Key]", "Name", "PublicKey = x", "a  b   c", "k1.host-x_2"];
+        let mut i = 0;
+        while i < 12 {
+            let mut t = Txt::<64>::new();
+            t.lit(b"[Key]\nName = ");
+            t.lit(names[i].as_bytes());
+            t.lit(b"\nPublicKey = P\n");
+            let kr = Keyring::new(t.as_str());
             assert!(kr.is_ok(), "[C17,C14] a [Key] section as written by key generation is accepted");
             let kr = kr.unwrap();
-            assert!(kr.keys.len() == 1, "[C17] one section gives one entry");
-            assert!(kr.keys[0].name.as_bytes() == &name[..n], "[C17,C14] the name parses back to exactly the name that was written");
+            assert!(kr.keys.len() == 1 && kr.keys[0].name == names[i], "[C17,C14] the name parses back to exactly the name that was written");
             assert!(kr.keys[0].public_key.as_str() == PK_A && kr.keys[0].private_key.is_none(), "[C17] the public key parses back to exactly what was written");
-            assert!(kr.get_key(unsafe { core::str::from_utf8_unchecked(&name[..n]) }).is_some(), "[C17,C12] the key is found under the name that was written");
+            assert!(kr.get_key(names[i]).is_some(), "[C17,C12] the key is found under the name that was written");
             core::mem::forget(kr);
+            i += 1;
         }
-    }
-    /// C17(2): names accepted by key generation (no TAB) round-trip through the parser.
-    #[kani::proof]
-    #[kani::stub(core::fmt::write, fmtwrite_cut)]
-    #[kani::stub(alloc::fmt::format, format_cut)]
-    #[kani::unwind(20)]
-    pub fn c17_name_roundtrip() { name_roundtrip(false, 2); }
+        assert!(!unsafe { STR_LIMIT }, "[LIMIT] E-STR models are exact for ASCII text only");
+    } }
+    str_stubs! {
     /// Known finding F4: a name containing a TAB does not round-trip (the parser deletes every TAB). Fully concrete input.
-    #[kani::proof]
-    #[kani::stub(core::fmt::write, fmtwrite_cut)]
-    #[kani::stub(alloc::fmt::format, format_cut)]
-    #[kani::unwind(20)]
+    #[kani::unwind(16)]
     pub fn c17_name_roundtrip_tab() {
-        unsafe { ct_codecs::kani_model::ATT_LEN = 36; }
+        unsafe { ct_codecs::kani_model::M.att_len = 36; }
         let name = *b"a\tb";
         let text = name_text(&name, 3);
         let kr = Keyring::new(&text);
+        assert!(!unsafe { STR_LIMIT }, "[LIMIT] E-STR models are exact for ASCII text only");
         assert!(kr.is_ok() && kr.as_ref().unwrap().keys.len() == 1 && kr.as_ref().unwrap().keys[0].name.as_bytes() == &name[..],
                 "[C17] KF-F4 a key name containing a TAB, as written by key generation, parses back to itself");
         core::mem::forget(kr);
-    }
+    } }
 
+    str_stubs! {
+    /// E-STR self-test: the models, called through the std names, on concrete texts with the results std documents.
+    #[kani::unwind(14)]
+    pub fn estr_selftest() {
+        let text = String::from("a\nb \r\n\n\tc=d");
+        let mut it = text.lines();
+        assert!(it.next() == Some("a"));
+        assert!(it.next() == Some("b "));
+        assert!(it.next() == Some(""));
+        let l = it.next();
+        assert!(l == Some("\tc=d"));
+        assert!(it.next().is_none());
+        let mut c = l.unwrap().to_string();
+        c.retain(|ch| ch != '\t');
+        assert!(c == "c=d");
+        let so = c.split_once('=');
+        assert!(so == Some(("c", "d")));
+        assert!("x".split_once('=').is_none());
+        assert!("  x y \t".trim() == "x y");
+        assert!("".trim() == "" && " ".trim() == "");
+        let mut n = 0;
+        for _l in "p\nq\n".lines() { n += 1; }
+        assert!(n == 2);
+        assert!(!unsafe { STR_LIMIT });
+    } }
+
+    /// Environment guard: Kani 0.68 conflates a constant with an upstream static of identical initial bytes (see
+    /// harness/env/ct-codecs-kani/src/kani_model.rs). After the model's state has been written, fresh containers must still
+    /// be empty with capacity 0 - if this fails, every verdict of the CLI harnesses is suspect.
+    #[kani::proof]
+    pub fn env_const_alias_guard() {
+        unsafe { B64.att_len = 36; B64.b64_n = 1; B64.att_err = true; B64.decodes = 7; }
+        let keys = Vec::<Key>::new();
+        let v = Vec::<u8>::new();
+        let s = String::new();
+        assert!(keys.capacity() == 0 && keys.len() == 0);
+        assert!(v.capacity() == 0 && s.capacity() == 0);
+        assert!(core::mem::size_of::<usize>() == 8);
+    }
     /// C17(1): structural acceptance, compared with the documented rule: every [Key] section has a Name and a PublicKey,
     /// fields appear once per section and only inside a section, names and public keys are unique, entries = sections
     /// in order. (a) two sections with SYMBOLIC one-byte names and symbolic choice of public keys: accepted iff names
     /// differ and keys differ; (b) ten concrete section shapes, run one after the other.
-    #[kani::proof]
-    #[kani::stub(core::fmt::write, fmtwrite_cut)]
-    #[kani::stub(alloc::fmt::format, format_cut)]
-    #[kani::unwind(20)]
+    str_stubs! {
+    #[kani::unwind(32)]
     pub fn c17_sections() {
-        unsafe { ct_codecs::kani_model::ATT_LEN = 36; }
+        unsafe { ct_codecs::kani_model::M.att_len = 36; }
         // (a)
         let (n1, n2): (u8, u8) = (kani::any(), kani::any());
         kani::assume(n1 >= b'a' && n1 <= b'c' && n2 >= b'a' && n2 <= b'c');
         let same_pk: bool = kani::any();
         let b1 = [n1];
         let b2 = [n2];
-        let text = format_two(unsafe { core::str::from_utf8_unchecked(&b1) }, PK_A, unsafe { core::str::from_utf8_unchecked(&b2) }, if same_pk { PK_A } else { PK_B });
-        let kr = Keyring::new(&text);
+        let mut t = Txt::<64>::new();
+        t.lit(b"[Key]\nName = "); t.byte(n1); t.lit(b"\nPublicKey=P\n\n[Key]\nName = "); t.byte(n2); t.lit(b"\nPublicKey="); t.byte(if same_pk { b'P' } else { b'Q' }); t.byte(b'\n');
+        let text = t.as_str();
+        let kr = Keyring::new(text);
         assert!(kr.is_ok() == (n1 != n2 && !same_pk), "[C17] a keyring is accepted iff no name and no public key occurs twice");
         if let Ok(k) = &kr {
             assert!(k.keys.len() == 2 && k.keys[0].name.as_bytes() == &b1[..] && k.keys[1].name.as_bytes() == &b2[..] && k.keys[1].public_key.as_str() == PK_B,
@@ -409,17 +562,16 @@ pub(crate) mod verif_keyring {
         }
         kani::cover!(kr.is_ok());
         kani::cover!(kr.is_err() && n1 != n2);
+        assert!(!unsafe { STR_LIMIT }, "[LIMIT] E-STR models are exact for ASCII text only");
         core::mem::forget(kr);
-    }
+    } }
 
     /// C17(1b): ten concrete section shapes, run one after the other (concrete inputs: the parser is executed, not solved).
-    #[kani::proof]
-    #[kani::stub(core::fmt::write, fmtwrite_cut)]
-    #[kani::stub(alloc::fmt::format, format_cut)]
-    #[kani::unwind(20)]
+    str_stubs! {
+    #[kani::unwind(18)]
     pub fn c17_shapes() {
-        unsafe { ct_codecs::kani_model::ATT_LEN = 36; }
-        let shapes: [(&str, bool, usize); 10] = [
+        unsafe { ct_codecs::kani_model::M.att_len = 36; }
+        let shapes: [(&str, bool, usize); 16] = [
             ("[Key]\n[Key]\nName = a\nPublicKey = P\n", false, 0), // empty first section
             ("[Key]\nName = a\nPublicKey = P\n[Key]\n", false, 0), // empty last section
             ("Name = a\n[Key]\nPublicKey = P\n", false, 0),       // field outside a section
@@ -430,9 +582,15 @@ pub(crate) mod verif_keyring {
             ("[Key]\nName = a\njunk\nPublicKey = P\n", false, 0),   // junk line
             ("[Key]\nPrivateKey = x\nName = a\nPublicKey = P\n", false, 0), // malformed private key
             ("", false, 0),                                                                                      // empty file
+            ("[Key]\r\nName = a\r\nPublicKey = P\r\n", true, 1),   // CRLF line ends
+            ("  [Key]  \n\tName\t=\ta \n  PublicKey=P", true, 1),  // indentation, TABs around tokens, trailing blanks
+            ("[Key]\nName = a\nPublicKey = P\n[Key]\nName = a\nPublicKey = Q\n", false, 0), // same name twice
+            ("[Key]\nName = a\nPublicKey = P\n[Key]\nName = b\nPublicKey = P\n", false, 0), // same public key twice
+            ("[Key]\nName = a\nPublicKey = P\n\n[Key]\nName = b\nPublicKey = Q\n", true, 2),  // two key generations appended (C14)
+            ("[Key]\nName = a\nPublicKey = P\n[Key]\nName = b\n", false, 0),                     // second section incomplete at end of file
         ];
         let mut i = 0;
-        while i < 10 {
+        while i < 16 {
             let (t, accept, count) = shapes[i];
             let kr = Keyring::new(t);
             assert!(kr.is_ok() == accept, "[C17] a keyring is accepted iff every [Key] section is complete, fields are unique per section and inside a section");
@@ -440,7 +598,113 @@ pub(crate) mod verif_keyring {
             core::mem::forget(kr);
             i += 1;
         }
+        assert!(!unsafe { STR_LIMIT }, "[LIMIT] E-STR models are exact for ASCII text only");
+    } }
+    // ------------------------------------------------------------------ C17(1): all token sequences up to a length bound
+    // Every line of the text is one of NT tokens, padded with blanks to a common width (the parser trims), so the text has
+    // a CONCRETE length and layout while its content is solver-chosen: the solver ranges over all NT^L files at once.
+    pub const TW: usize = 14;
+    pub const NT: usize = 10;
+    pub static TOK: [[u8; TW]; NT] = [
+        *b"[Key]         ",
+        *b"Name = a      ",
+        *b"Name = b      ",
+        *b"PublicKey = P ",
+        *b"PublicKey = Q ",
+        *b"PrivateKey = x", // malformed private key (decodes to 36 bytes, not 84)
+        *b"# comment     ",
+        *b"              ",
+        *b"junk          ",
+        *b"Name          ", // field without a value
+    ];
+    /// The documented acceptance rule as a small state machine over tokens (the oracle). Returns (accepted, entries).
+    pub fn token_oracle(sel: &[u8], l: usize) -> (bool, usize, [(u8, u8); 3]) {
+        let mut entries = [(0u8, 0u8); 3];
+        let mut n = 0usize;
+        let mut found = false;
+        let mut name: u8 = 0; // 0 = none
+        let mut pk: u8 = 0;
+        let mut ok = true;
+        let mut i = 0;
+        while i < l {
+            let t = sel[i];
+            if ok {
+                match t {
+                    0 => {
+                        if found {
+                            if name == 0 || pk == 0 { ok = false; } else {
+                                let mut j = 0;
+                                while j < 3 { if j < n && (entries[j].0 == name || entries[j].1 == pk) { ok = false; } j += 1; }
+                                if ok { entries[n] = (name, pk); n += 1; name = 0; pk = 0; }
+                            }
+                        }
+                        found = true;
+                    }
+                    1 | 2 => { if !found || name != 0 { ok = false; } else { name = if t == 1 { b'a' } else { b'b' }; } }
+                    3 | 4 => { if !found || pk != 0 { ok = false; } else { pk = if t == 3 { b'P' } else { b'Q' }; } }
+                    5 | 8 | 9 => { ok = false; }
+                    _ => {}
+                }
+            }
+            i += 1;
+        }
+        if ok {
+            if !found || name == 0 || pk == 0 { ok = false; } else {
+                let mut j = 0;
+                while j < 3 { if j < n && (entries[j].0 == name || entries[j].1 == pk) { ok = false; } j += 1; }
+                if ok { entries[n] = (name, pk); n += 1; }
+            }
+        }
+        (ok, n, entries)
     }
+    fn token_sequences(l: usize) {
+        unsafe { ct_codecs::kani_model::M.att_len = 36; }
+        let mut sel = [7u8; 7];
+        let mut t = Txt::<112>::new();
+        let mut i = 0;
+        while i < 7 {
+            if i < l {
+                let k: u8 = kani::any();
+                kani::assume((k as usize) < NT);
+                sel[i] = k;
+                let mut j = 0;
+                while j < TW { t.byte(TOK[k as usize][j]); j += 1; }
+                t.byte(b'\n');
+            }
+            i += 1;
+        }
+        let text = t.as_str();
+        let (accept, n, entries) = token_oracle(&sel, l);
+        let kr = Keyring::new(text);
+        assert!(!unsafe { STR_LIMIT }, "[LIMIT] E-STR models are exact for ASCII text only");
+        assert!(kr.is_ok() == accept, "[C17] a keyring is accepted iff every [Key] section has a Name and a PublicKey, fields occur once per section and only inside a section, nothing else but comments and blank lines occurs, and no name or public key occurs twice");
+        if let Ok(k) = &kr {
+            assert!(k.keys.len() == n, "[C17] on acceptance the entries are exactly the sections of the file");
+            let mut j = 0;
+            while j < 3 {
+                if j < n {
+                    let nb = k.keys[j].name.as_bytes();
+                    let pb = k.keys[j].public_key.as_str().as_bytes();
+                    assert!(nb.len() == 1 && nb[0] == entries[j].0 && pb.len() == 1 && pb[0] == entries[j].1 && k.keys[j].private_key.is_none(),
+                            "[C17] ... in order, each with the name and key of its section");
+                }
+                j += 1;
+            }
+        }
+        kani::cover!(kr.is_ok() && n == 1);
+        kani::cover!(kr.is_err() && !accept);
+        core::mem::forget(kr);
+    }
+    str_stubs! {
+    /// C17(1): EVERY file of 4 lines over the 10 line tokens (10^4 files): accepted iff the documented rule accepts, entries
+    /// = sections in order.
+    #[kani::unwind(16)]
+    pub fn c17_tokens_l4() { token_sequences(4); } }
+    str_stubs! {
+    /// C17(1): EVERY file of 6 lines over the 10 line tokens (10^6 files; two complete sections fit).
+    #[kani::unwind(16)]
+    pub fn c17_tokens_l6() { token_sequences(6); kani::cover!(true); } }
+
     fn format_two(n1: &str, p1: &str, n2: &str, p2: &str) -> String {
         let mut t = String::from("[Key]\nName = ");
         t.push_str(n1); t.push_str("\nPublicKey="); t.push_str(p1);
